@@ -24,7 +24,7 @@ def emit_f_constrained(R):
     if not re.match(r'\s*const\s+std::vector<double>\s*&x_batch\s*,\s*std::vector<double>\s*&fval_batch\s*,\s*std::vector<bool>\s*&inside_batch\s*$', params):
         raise X.ExtractionBreak("f_constrained parameters changed: " + params)
     R.counts["R7-hoist"] = 1
-    chdr = ("void f_constrained(size_t num_dimensions, const double *x_batch, size_t x_batch_size, double *fval_batch, size_t fval_batch_size, "
+    chdr = ("void f_constrained(size_t num_dimensions, size_t num_particles, const double *x_batch, size_t x_batch_size, double *fval_batch, size_t fval_batch_size, "
             "bool *inside_batch, size_t inside_batch_size)")
     src = b
     b = X.r2_paren_init(R, b, "size_t")
@@ -37,7 +37,7 @@ def emit_f_constrained(R):
     b = R.sub("R8-callback", r'(?<![\w.>_])inside\s*\(\s*candidate\s*\)', 'cb_inside(candidate, candidate_size)', b)
     b = R.sub("R8-callback", r'(?<![\w.>_])f\s*\(\s*inside_points\s*,\s*inside_vals\s*\)', 'cb_f(inside_points, inside_points_size, inside_vals, inside_vals_size)', b)
     X.check_leftover(chdr + b, "f_constrained")
-    R.require({"R2-paren-init": 1, "R5-local-vector": 3, "R2-numeric-limits": 1, "R5-back-inserter": 1, "R5-copy_n": 1, "R8-callback": 2, "R5-size": 1})
+    R.require({"R2-paren-init": 1, "R5-local-vector": 3, "R2-numeric-limits": 1, "R5-back-inserter": 1, "R5-copy_n": 1, "R8-callback": 2})
     line = p.line + (p.header + p.body[:off]).count('\n')
     out = '#line %d "%s"\n' % (line, X.REPO + "/" + p.rel) + chdr + b + "\n"
     info = {"functions": [{"name": "ParticleSwarm::f_constrained (lambda)", "file": p.rel, "line": line, "loops": X.count_loops(b)}],
